@@ -9,6 +9,9 @@
 (* must equal the recomputed ones.                                            *)
 (* Events: reset | build(pts, bounding) | insert(p, bounding) |               *)
 (*         query(impl, kind, q, k, r, res, cd) | contains(q, res) | tree(nodes)*)
+(*         | dobounded(lo, hi, res, stopped): the points kdtree.DoBounded       *)
+(*         visited for the closed box [lo, hi] (lo <= hi) must be, as a bag,   *)
+(*         BoxScan of the stored points; it was not interrupted.               *)
 EXTENDS SpatialIndex, TLCExt
 
 TraceLog == ndJsonDeserialize("trace.ndjson")
@@ -54,8 +57,15 @@ Contains == /\ l <= Len(TraceLog) /\ Ev.ev = "contains"
             /\ (bmode /\ InBox(All, Ev.q)) => Ev.res = TRUE
             /\ UNCHANGED <<built, ins, bmode>> /\ l' = l + 1
 
+DoBoundedEv == /\ l <= Len(TraceLog) /\ Ev.ev = "dobounded"
+               /\ Leq(Ev.lo, Ev.hi)
+               /\ LET S == BoxScan(All, Ev.lo, Ev.hi) IN
+                    /\ Len(Ev.res) = Len(S)
+                    /\ \A p \in Range(S) : PCnt(Ev.res, p) = PCnt(S, p)
+               /\ Ev.stopped = FALSE
+               /\ UNCHANGED <<built, ins, bmode>> /\ l' = l + 1
+
 \* dump of the real tree: for every node its bounding box and the points of its subtree
-Leq(a, b) == \A i \in 1 .. Len(a) : a[i] <= b[i]
 Tree == /\ l <= Len(TraceLog) /\ Ev.ev = "tree"
         /\ Len(Ev.nodes) = Len(All)
         /\ \A i \in 1 .. Len(Ev.nodes) :
@@ -68,7 +78,7 @@ Tree == /\ l <= Len(TraceLog) /\ Ev.ev = "tree"
         /\ UNCHANGED <<built, ins, bmode>> /\ l' = l + 1
 
 TraceInit == built = <<>> /\ ins = <<>> /\ bmode = FALSE /\ l = 1
-TraceNext == Reset \/ Build \/ InsertEv \/ Query \/ Contains \/ Tree
+TraceNext == Reset \/ Build \/ InsertEv \/ Query \/ Contains \/ Tree \/ DoBoundedEv
 TraceSpec == TraceInit /\ [][TraceNext]_tvars
 
 Accepted ==
